@@ -116,6 +116,17 @@ REG = {
         'and closure to equal Stream!Obs of the stream for every chunking.',
    note='Covers TCP framing (TLS uses the same reader above the TLS layer). WebSocket handshake/frame segmentation is NOT covered by this check yet (DESIGN.md); '
         'declared sizes within 100 bytes of the configured maximum and TKL 15 inside a stream are not generated.'),
+ 'C14': dict(module='oscore', engine='oscore', category='model_checking', design_ref='4/C14',
+   technique='TLA+ spec Oscore (RFC 8613 transcribed: option classes, plaintext, CBOR AAD, nonce, compressed COSE object) + TLC checking every field of real protections recorded at the AEAD seam; systematic tampering',
+   text='Oscore.tla transcribes RFC 8613 sections 4.1, 4.2, 5.2-5.4 and 6.1 from the RFC. A real libcoap OSCORE client and server exchange generated messages; coap_crypto_aead_encrypt is '
+        'tapped at link time, so for every protection the key, nonce, AAD, plaintext and ciphertext are recorded next to the application\'s original message, the protected datagram and '
+        'what the peer\'s handler obtains. Expected sender keys and common IV come from an independent HKDF-SHA-256 (Python). TLC requires: key = derived sender key; plaintext = code || '
+        'class E options || payload; AAD = Enc_structure over [1,[10],kid,piv,h\'\']; nonce = (len(id) || id || piv) xor common IV; OSCORE option value = flag byte, partial IV (= sender '
+        'sequence number, minimal length), kid context, kid; outer code POST/FETCH resp. 2.04/2.05; only class U options, Observe and the OSCORE option outside; payload on the wire = '
+        'ciphertext; the handler obtains exactly the original code, options and payload; responses use the request nonce and name the request kid/piv in the AAD. Every single-bit flip in '
+        'the OSCORE option or ciphertext, every truncation and a request protected under another master secret must not reach the handler, and a genuine request must be served afterwards.',
+   note='The AES-CCM primitive (GnuTLS) is trusted and compared at the seam. Header / token / class U bytes are outside OSCORE\'s integrity protection. Observe notifications and '
+        'Appendix B.1.2 / B.2 exchanges are not covered.'),
  'C15': dict(module='replay', engine='replay', category='model_checking', design_ref='4/C15',
    technique='TLA+ spec Replay (sliding window + sender sequence persistence, TLC invariants) + TLC judging histories run against the real OSCORE recipient/sender',
    text='Replay.tla model-checks accepted-at-most-once, forgeries-change-nothing, genuine-higher-numbers-accepted and no-partial-IV-reuse across crash/restart for all '
